@@ -221,8 +221,10 @@ def run_flood(params, tape):
             if bl > ash.MAX_BUFFER_SIZE:
                 viol.append(("C02.mem", "buffer", f"receive buffer holds {bl} bytes after a read of {sz} (bound {ash.MAX_BUFFER_SIZE})"))
                 break
+            chunk = None  # the harness's own copy of the read must not count as memory held by the receiver
             if peak_first is None and fed >= 256 * 1024:
                 peak_first = tracemalloc.get_traced_memory()[0]
+        chunk = None
         cur_end = tracemalloc.get_traced_memory()[0]
     finally:
         tracemalloc.stop()
